@@ -19,7 +19,22 @@ pub fn ir_event(kind: u8, a: f64, b: f64) {
         }
     });
 }
+thread_local! {
+    static IRV: RefCell<Option<Vec<(u8, Vec<f64>)>>> = const { RefCell::new(None) };
+}
+/// kinds: 0 the first LDL solve x0 (at the first residual evaluation); 1 a candidate x + dx
+pub fn ir_vector(kind: u8, v: &[f64]) {
+    IRV.with(|r| {
+        if let Some(l) = r.borrow_mut().as_mut() {
+            l.push((kind, v.to_vec()));
+        }
+    });
+}
+pub fn ir_take_vectors() -> Vec<(u8, Vec<f64>)> {
+    IRV.with(|r| r.borrow_mut().take().unwrap_or_default())
+}
 pub fn ir_start() {
+    IRV.with(|r| *r.borrow_mut() = Some(vec![]));
     IR.with(|r| *r.borrow_mut() = Some(vec![]));
 }
 pub fn ir_take() -> Vec<(u8, f64, f64)> {
